@@ -13,11 +13,13 @@ StateOK == \A b \in Brokers, k \in BanKeys : Ev.state[b][k] = ~IsBanned(ban'[b][
 TrReset   == IsEvent("reset")   /\ ban' = [b \in Brokers |-> [k \in BanKeys |-> Zero]] /\ clock' = 1
 TrBan     == IsEvent("ban")     /\ Ev.status = 200 /\ DoBan(Ev.b, Ev.k) /\ StateOK
 TrUnban   == IsEvent("unban")   /\ Ev.status = 200 /\ DoUnban(Ev.b, Ev.k) /\ StateOK
+(* a ban / unban request that was not acknowledged (a broker without cluster section has no ban state): nothing happens *)
+TrRefused == IsEvent("ban-refused") /\ UNCHANGED bvars /\ StateOK
 TrUse     == IsEvent("use")     /\ Ev.ok = UseAllowed(Ev.b, Ev.k) /\ Use(Ev.b, Ev.k) /\ StateOK      \* refused iff banned, at once
 TrRestart == IsEvent("restart") /\ Restart(Ev.b) /\ StateOK
 TrGossip  == IsEvent("gossip")  /\ Gossip(Ev.from, Ev.to) /\ StateOK
 
 TraceInit == BanInit /\ l = 1 /\ MarkInit
-TraceNext == TrReset \/ TrBan \/ TrUnban \/ TrUse \/ TrRestart \/ TrGossip
+TraceNext == TrRefused \/ TrReset \/ TrBan \/ TrUnban \/ TrUse \/ TrRestart \/ TrGossip
 MarkC     == Mark(l)
 =============================================================================
